@@ -3,7 +3,7 @@
 //! with a small model. Decides C15, C16, C17, C18; each check reports only its
 //! own clauses, the others act as attribution guards.
 
-use crate::events::{gen_event, gen_kind_packet, kind_name, ref_decode, sanitize, KIND_NAMES, N_APP_KINDS, N_KINDS};
+use crate::events::{gen_event, gen_kind_packet, kind_name, ref_decode, sanitize, N_APP_KINDS, N_KINDS};
 use crate::gen::{fill_pattern, packet_eq, SizeCfg};
 use crate::link_hostile::panic_site;
 use crate::scenario::{bucket, fail, Outcome, Tier};
